@@ -52,6 +52,22 @@ add("C03", "exploration",
     "Trusts math.lgamma / scipy and the independent DP marginal of C02.",
     "DESIGN.md section 5 C03")
 
+add("C06", "exploration",
+    "model-based (stateful) property testing: generated edit programs in the samplers' grammar applied to the real Tree and a model; differential comparison with a from-scratch rebuild after every step",
+    "After every applied step of every generated program (incl. real sampler invocations) each clone's cached vectors, the root vector and both joint densities must equal (1e-8) those of a tree rebuilt from the model.",
+    "Trusts the model's bookkeeping of the expected shape (cross-checked against the tree in C07) and create_root_node post-order building as the 'fresh' reference (its values are checked against the independent DP in C02).",
+    "DESIGN.md section 5 C06/C07")
+add("C07", "exploration",
+    "model-based (stateful) property testing: generated edit programs + sampler invocations; structural invariants and data conservation checked after every step against a model",
+    "After every applied step: single parent, reachability, inverse index maps, payload names, consistent data views, no data under dead names, data multiset conserved, structure == model; every sampler returns a tree over exactly its input data.",
+    "Reads internal fields (_graph, _node_indices, _node_indices_rev, _data) for the index-map invariants; preconditions of DESIGN.md section 4.",
+    "DESIGN.md section 5 C06/C07")
+add("C15", "exploration",
+    "round-trip property testing inside generated edit histories (twin tree receives the same later edits) + generated run configurations with trace read-back and density recomputation",
+    "(a) dict / pickle / gzip round-trips at random points of generated edit programs, twin compared after every later step; (b) generated run configurations: iteration list, completeness and log_p_one self-consistency of every trace entry.",
+    "Node names are compared right after the round-trip only (relabel/graft renumber in traversal order); single chain in-process for (b).",
+    "DESIGN.md section 5 C15")
+
 NOT_APPLICABLE = []
 
 def main():
